@@ -217,6 +217,25 @@ def disjoint_case(ctx, case, fmt, mode, kindname):
                 return
 
 
+def dups_only_across_graph_labels(case, fmt, mode, texts):
+    try:
+        groups, _ = group_sets(cg.config_text(case.mapping, fmt=fmt, partitioning=mode))
+    except Exception:
+        return False
+    norm = lambda l: l[:-2] if l.endswith(' .') else l
+    seen, dup = set(), set()
+    for l in map(norm, texts):
+        (dup if l in seen else seen).add(l)
+    if not dup:
+        return False
+    for l in dup:
+        labels = [lab.split('-') for lab, st in groups.items() if l in {norm(x) for x in st}]
+        if len(labels) < 2 or any(len(a) != 4 for a in labels) or len({tuple(a[:3]) for a in labels}) != 1 \
+                or len({a[3] for a in labels}) != len(labels):
+            return False
+    return True
+
+
 def cli_case(ctx, case, fmt, mode, use_dir):
     d = os.path.join(case.dir, 'cli')
     os.makedirs(d, exist_ok=True)
@@ -259,6 +278,10 @@ def cli_case(ctx, case, fmt, mode, use_dir):
             any(len(t['subject'].get('graphs', [])) + len(pom.get('graphs', [])) >= 2 for pom in t['poms'])
             or (t['subject'].get('classes') and len(t['subject'].get('graphs', [])) >= 2)
             for t in case.doc['tms'])
+        if not f1 and fmt == 'N-TRIPLES':
+            # the same scope read off the groups themselves (the rules that differ only in their graph maps may belong to
+            # different triples maps): every duplicated line is produced only by groups whose labels agree on S, P, O
+            f1 = dups_only_across_graph_labels(case, fmt, mode, texts)
         ctx.violation(f'the output holds {dup} duplicate line(s); logged total {total}, distinct statements {len(set(texts))}', inp,
                       finding='C03_F1' if f1 else triage(case, fmt, '', '', ''))
 
